@@ -69,9 +69,12 @@ impl HEST {
         self.checksum.append(new_len.as_bytes());
         self.checksum.append(data);
 
-        // The HEST keeps a count of how many structures are
-        // contained within it.
-        self.checksum.add(1);
+        // The HEST keeps a count of how many structures are contained
+        // within it: replace the bytes of the old count with the new one.
+        let old_count = self.structures.len() as u32;
+        let new_count = old_count + 1;
+        self.checksum.delete(old_count.as_bytes());
+        self.checksum.append(new_count.as_bytes());
         self.header.checksum = self.checksum.value();
     }
 
